@@ -390,6 +390,14 @@ package consensus
 //@ spec rec sumRevAll(s []types.FileContractRevision, n int) int = n <= 0 ? 0 : sumRevAll(s, n-1) + revAll(s[n-1].FileContract)
 //@ spec v1Total(txn types.Transaction) int = sumSCO(txn.SiacoinOutputs, len(txn.SiacoinOutputs)) + sumFCAll(txn.FileContracts, len(txn.FileContracts)) + sumRevAll(txn.FileContractRevisions, len(txn.FileContractRevisions))
 
+//@ spec prefOK(outs []types.SiacoinOutput, n int) bool = forall i in 0..n+1 :: sumSCO(outs, i) < types.M128
+
+//@ spec SOL(txn types.Transaction) int = sumSCO(txn.SiacoinOutputs, len(txn.SiacoinOutputs))
+//@ spec v1fcOK(fc types.FileContract) bool = v1fcSumsOK(fc) && sumSCO(fc.ValidProofOutputs, len(fc.ValidProofOutputs)) + types.u128(fc.Payout) < types.M128
+//@ spec payPref(txn types.Transaction, n int) bool = forall i in 0..n+1 :: SOL(txn) + sumFCPayout(txn.FileContracts, i) < types.M128
+//@ spec fcsOK(txn types.Transaction, n int) bool = forall i in 0..n :: v1fcOK(txn.FileContracts[i])
+//@ spec revsOK(txn types.Transaction, n int) bool = forall i in 0..n :: v1fcSumsOK(txn.FileContractRevisions[i].FileContract)
+
 //@ func validateCurrencyOverflow
 //@   pure
 //@   prop C09
@@ -397,22 +405,90 @@ package consensus
 //@   prop C10 C01
 //@   ghost k int
 //@   invariant loop#1 @sum !overflow ==> types.u128(sum) == sumSCO(txn.SiacoinOutputs, $n)
+//@   invariant loop#1 @nn sumSCO(txn.SiacoinOutputs, $n) >= 0
+//@   invariant loop#1 @pref !overflow ==> prefOK(txn.SiacoinOutputs, $n)
 //@   invariant loop#2 @sum !overflow ==> types.u128(sum) == sumSCO(txn.SiacoinOutputs, len(txn.SiacoinOutputs))
+//@   invariant loop#2 @c-nn SOL(txn) >= 0
+//@   invariant loop#2 @c-pref !overflow ==> prefOK(txn.SiacoinOutputs, len(txn.SiacoinOutputs))
+//@   invariant loop#2 @sf-all !overflow ==> forall j in 0..$n :: txn.SiafundOutputs[j].Value <= 10000
 //@   invariant loop#2 @sf !overflow && 0 <= k && k < $n ==> txn.SiafundOutputs[k].Value <= 10000
 //@   invariant loop#3 @sum !overflow ==> types.u128(sum) == sumSCO(txn.SiacoinOutputs, len(txn.SiacoinOutputs)) + sumFCAll(txn.FileContracts, $n)
+//@   invariant loop#3 @c-nn SOL(txn) >= 0
+//@   invariant loop#3 @nn3 sumFCAll(txn.FileContracts, $n) >= 0
+//@   invariant loop#3 @r3 sumFCPayout(txn.FileContracts, $n) <= sumFCAll(txn.FileContracts, $n)
+//@   invariant loop#3 @p3 !overflow ==> payPref(txn, $n)
+//@   invariant loop#3 @q3 !overflow ==> fcsOK(txn, $n)
+//@   invariant loop#3 @c-pref !overflow ==> prefOK(txn.SiacoinOutputs, len(txn.SiacoinOutputs))
+//@   invariant loop#3 @c-sf-all !overflow ==> forall j in 0..len(txn.SiafundOutputs) :: txn.SiafundOutputs[j].Value <= 10000
 //@   invariant loop#3 @sf !overflow && 0 <= k && k < len(txn.SiafundOutputs) ==> txn.SiafundOutputs[k].Value <= 10000
 //@   invariant loop#4 @sum !overflow ==> types.u128(sum) == sumSCO(txn.SiacoinOutputs, len(txn.SiacoinOutputs)) + sumFCAll(txn.FileContracts, $n3) + types.u128(fc.Payout) + sumSCO(fc.ValidProofOutputs, $n)
+//@   invariant loop#4 @c-nn SOL(txn) >= 0
+//@   invariant loop#4 @nn3 sumFCAll(txn.FileContracts, $n3) >= 0
+//@   invariant loop#4 @r3 sumFCPayout(txn.FileContracts, $n3) <= sumFCAll(txn.FileContracts, $n3)
+//@   invariant loop#4 @p3 !overflow ==> payPref(txn, $n3)
+//@   invariant loop#4 @q3 !overflow ==> fcsOK(txn, $n3)
+//@   invariant loop#4 @nn4 sumSCO(fc.ValidProofOutputs, $n) >= 0
+//@   invariant loop#4 @p4 !overflow ==> prefOK(fc.ValidProofOutputs, $n)
+//@   invariant loop#4 @c-pref !overflow ==> prefOK(txn.SiacoinOutputs, len(txn.SiacoinOutputs))
+//@   invariant loop#4 @c-sf-all !overflow ==> forall j in 0..len(txn.SiafundOutputs) :: txn.SiafundOutputs[j].Value <= 10000
 //@   invariant loop#4 @sf !overflow && 0 <= k && k < len(txn.SiafundOutputs) ==> txn.SiafundOutputs[k].Value <= 10000
 //@   invariant loop#5 @sum !overflow ==> types.u128(sum) == sumSCO(txn.SiacoinOutputs, len(txn.SiacoinOutputs)) + sumFCAll(txn.FileContracts, $n3) + types.u128(fc.Payout) + sumSCO(fc.ValidProofOutputs, len(fc.ValidProofOutputs)) + sumSCO(fc.MissedProofOutputs, $n)
+//@   invariant loop#5 @c-nn SOL(txn) >= 0
+//@   invariant loop#5 @nn3 sumFCAll(txn.FileContracts, $n3) >= 0
+//@   invariant loop#5 @r3 sumFCPayout(txn.FileContracts, $n3) <= sumFCAll(txn.FileContracts, $n3)
+//@   invariant loop#5 @p3 !overflow ==> payPref(txn, $n3)
+//@   invariant loop#5 @q3 !overflow ==> fcsOK(txn, $n3)
+//@   invariant loop#5 @c-nn4 sumSCO(fc.ValidProofOutputs, len(fc.ValidProofOutputs)) >= 0
+//@   invariant loop#5 @c-p4 !overflow ==> prefOK(fc.ValidProofOutputs, len(fc.ValidProofOutputs))
+//@   invariant loop#5 @c-vp !overflow ==> sumSCO(fc.ValidProofOutputs, len(fc.ValidProofOutputs)) + types.u128(fc.Payout) < types.M128
+//@   invariant loop#5 @nn5 sumSCO(fc.MissedProofOutputs, $n) >= 0
+//@   invariant loop#5 @p5 !overflow ==> prefOK(fc.MissedProofOutputs, $n)
+//@   invariant loop#5 @c-pref !overflow ==> prefOK(txn.SiacoinOutputs, len(txn.SiacoinOutputs))
+//@   invariant loop#5 @c-sf-all !overflow ==> forall j in 0..len(txn.SiafundOutputs) :: txn.SiafundOutputs[j].Value <= 10000
 //@   invariant loop#5 @sf !overflow && 0 <= k && k < len(txn.SiafundOutputs) ==> txn.SiafundOutputs[k].Value <= 10000
 //@   invariant loop#6 @sum !overflow ==> types.u128(sum) == sumSCO(txn.SiacoinOutputs, len(txn.SiacoinOutputs)) + sumFCAll(txn.FileContracts, len(txn.FileContracts)) + sumRevAll(txn.FileContractRevisions, $n)
+//@   invariant loop#6 @c-nn SOL(txn) >= 0
+//@   invariant loop#6 @c-nn3 sumFCAll(txn.FileContracts, len(txn.FileContracts)) >= 0
+//@   invariant loop#6 @c-p3 !overflow ==> payPref(txn, len(txn.FileContracts))
+//@   invariant loop#6 @c-q3 !overflow ==> fcsOK(txn, len(txn.FileContracts))
+//@   invariant loop#6 @nn6 sumRevAll(txn.FileContractRevisions, $n) >= 0
+//@   invariant loop#6 @q6 !overflow ==> revsOK(txn, $n)
+//@   invariant loop#6 @c-pref !overflow ==> prefOK(txn.SiacoinOutputs, len(txn.SiacoinOutputs))
+//@   invariant loop#6 @c-sf-all !overflow ==> forall j in 0..len(txn.SiafundOutputs) :: txn.SiafundOutputs[j].Value <= 10000
 //@   invariant loop#6 @sf !overflow && 0 <= k && k < len(txn.SiafundOutputs) ==> txn.SiafundOutputs[k].Value <= 10000
 //@   invariant loop#7 @sum !overflow ==> types.u128(sum) == sumSCO(txn.SiacoinOutputs, len(txn.SiacoinOutputs)) + sumFCAll(txn.FileContracts, len(txn.FileContracts)) + sumRevAll(txn.FileContractRevisions, $n6) + sumSCO(fcr.FileContract.ValidProofOutputs, $n)
+//@   invariant loop#7 @c-nn SOL(txn) >= 0
+//@   invariant loop#7 @c-nn3 sumFCAll(txn.FileContracts, len(txn.FileContracts)) >= 0
+//@   invariant loop#7 @c-p3 !overflow ==> payPref(txn, len(txn.FileContracts))
+//@   invariant loop#7 @c-q3 !overflow ==> fcsOK(txn, len(txn.FileContracts))
+//@   invariant loop#7 @nn6 sumRevAll(txn.FileContractRevisions, $n6) >= 0
+//@   invariant loop#7 @q6 !overflow ==> revsOK(txn, $n6)
+//@   invariant loop#7 @nn7 sumSCO(fcr.FileContract.ValidProofOutputs, $n) >= 0
+//@   invariant loop#7 @p7 !overflow ==> prefOK(fcr.FileContract.ValidProofOutputs, $n)
+//@   invariant loop#7 @c-pref !overflow ==> prefOK(txn.SiacoinOutputs, len(txn.SiacoinOutputs))
+//@   invariant loop#7 @c-sf-all !overflow ==> forall j in 0..len(txn.SiafundOutputs) :: txn.SiafundOutputs[j].Value <= 10000
 //@   invariant loop#7 @sf !overflow && 0 <= k && k < len(txn.SiafundOutputs) ==> txn.SiafundOutputs[k].Value <= 10000
 //@   invariant loop#8 @sum !overflow ==> types.u128(sum) == sumSCO(txn.SiacoinOutputs, len(txn.SiacoinOutputs)) + sumFCAll(txn.FileContracts, len(txn.FileContracts)) + sumRevAll(txn.FileContractRevisions, $n6) + sumSCO(fcr.FileContract.ValidProofOutputs, len(fcr.FileContract.ValidProofOutputs)) + sumSCO(fcr.FileContract.MissedProofOutputs, $n)
+//@   invariant loop#8 @c-nn SOL(txn) >= 0
+//@   invariant loop#8 @c-nn3 sumFCAll(txn.FileContracts, len(txn.FileContracts)) >= 0
+//@   invariant loop#8 @c-p3 !overflow ==> payPref(txn, len(txn.FileContracts))
+//@   invariant loop#8 @c-q3 !overflow ==> fcsOK(txn, len(txn.FileContracts))
+//@   invariant loop#8 @nn6 sumRevAll(txn.FileContractRevisions, $n6) >= 0
+//@   invariant loop#8 @q6 !overflow ==> revsOK(txn, $n6)
+//@   invariant loop#8 @c-nn7 sumSCO(fcr.FileContract.ValidProofOutputs, len(fcr.FileContract.ValidProofOutputs)) >= 0
+//@   invariant loop#8 @c-p7 !overflow ==> prefOK(fcr.FileContract.ValidProofOutputs, len(fcr.FileContract.ValidProofOutputs))
+//@   invariant loop#8 @nn8 sumSCO(fcr.FileContract.MissedProofOutputs, $n) >= 0
+//@   invariant loop#8 @p8 !overflow ==> prefOK(fcr.FileContract.MissedProofOutputs, $n)
+//@   invariant loop#8 @c-pref !overflow ==> prefOK(txn.SiacoinOutputs, len(txn.SiacoinOutputs))
+//@   invariant loop#8 @c-sf-all !overflow ==> forall j in 0..len(txn.SiafundOutputs) :: txn.SiafundOutputs[j].Value <= 10000
 //@   invariant loop#8 @sf !overflow && 0 <= k && k < len(txn.SiafundOutputs) ==> txn.SiafundOutputs[k].Value <= 10000
 //@   ensures @O1-total result == nil ==> v1Total(txn) < types.M128
 //@   ensures @O1-siafunds result == nil && 0 <= k && k < len(txn.SiafundOutputs) ==> txn.SiafundOutputs[k].Value <= 10000
+//@   ensures @T1-output-prefixes result == nil ==> prefOK(txn.SiacoinOutputs, len(txn.SiacoinOutputs))
+//@   ensures @T0-siafund-values result == nil ==> forall j in 0..len(txn.SiafundOutputs) :: txn.SiafundOutputs[j].Value <= 10000
+//@   ensures @T2-payout-prefixes result == nil ==> payPref(txn, len(txn.FileContracts))
+//@   ensures @T3-contract-sums result == nil ==> fcsOK(txn, len(txn.FileContracts))
+//@   ensures @T4-revision-sums result == nil ==> revsOK(txn, len(txn.FileContractRevisions))
 
 // ------------------------------------------------------------ validation.go: v1 file contracts
 
@@ -840,5 +916,6 @@ package consensus
 //@   requires ms.base.Network != nil && msWF(*ms)
 //@   requires @sizes len(txn.SiacoinInputs) < NB && len(txn.SiafundInputs) < NB && len(txn.SiafundOutputs) < NB
 //@   requires @supply-bound scBounded(*ms, ts) && sfBounded(*ms, ts)
+//@   requires @existing-contracts-well-formed forall i in 0..len(txn.FileContractRevisions) :: ms.fileContractElement(ts, txn.FileContractRevisions[i].ParentID).1 ==> v1fcSumsOK(ms.fileContractElement(ts, txn.FileContractRevisions[i].ParentID).0.FileContract)
 //@   ensures @runs-every-validator result == nil ==> cheight(ms.base) < ms.base.Network.HardforkV2.RequireHeight && validateCurrencyOverflow(ms, txn) == nil && validateMinimumValues(ms, txn) == nil && validateSiacoins(ms, txn, ts) == nil && validateSiafunds(ms, txn, ts) == nil && validateFileContracts(ms, txn, ts) == nil && validateArbitraryData(ms, txn) == nil && validateSignatures(ms, txn) == nil
 //@   ensures @weight result == nil ==> ms.base.TransactionWeight(txn) <= ms.base.MaxBlockWeight()
